@@ -582,6 +582,26 @@ class Unit:
             return
         self._classify(p.returncode)
 
+    def _own_spans(self, d):
+        """Spans of a diagnostic that lie in the generated file (a span inside vstd or a macro
+        definition must never be matched against line ranges of the generated file); if a span is a
+        macro expansion, the call-site span in the generated file is used."""
+        me = os.path.basename(self.gen_path)
+        out = []
+        for sp in d.get('spans', []):
+            cur = sp
+            depth = 0
+            while cur is not None and depth < 8:
+                if os.path.basename(cur.get('file_name', '')) == me:
+                    c = dict(cur)
+                    c['is_primary'] = sp.get('is_primary')
+                    c['label'] = sp.get('label')
+                    out.append(c)
+                    break
+                cur = (cur.get('expansion') or {}).get('span')
+                depth += 1
+        return out
+
     def _classify(self, rc):
         obs = [o for o in self.obligations if o.kind != 'reach']
         guards = [o for o in self.obligations if o.kind == 'reach']
@@ -589,7 +609,7 @@ class Unit:
         rest = []
         for d in self.diags:
             g = None
-            for sp in d.get('spans', []):
+            for sp in self._own_spans(d):
                 for o in guards:
                     if o.line0 <= sp.get('line_start', -1) <= o.line1:
                         g = o
@@ -621,12 +641,12 @@ class Unit:
                 continue
             if not any(v in low for v in VERIF_ERR):
                 # compile/type/unsupported error in the generated file
-                sp = d['spans'][0] if d.get('spans') else {}
+                sp = (self._own_spans(d) or d.get('spans') or [{}])[0]
                 self.undecided = 'not a verification verdict: %s (gen line %s)' % (msg, sp.get('line_start'))
                 continue
             hit = False
             # 1. labelled clause spans
-            for sp in d.get('spans', []):
+            for sp in self._own_spans(d):
                 ln = sp.get('line_start')
                 for ob in obs:
                     if ob.kind in ('post', 'pre-env', 'inv') and ob.line0 <= ln <= ob.line1:
@@ -635,7 +655,7 @@ class Unit:
                         ob.rendered = d.get('rendered', '')
                         hit = True
             # 2. containing function / lemma
-            prim = [sp for sp in d.get('spans', []) if sp.get('is_primary')] or d.get('spans', [])
+            prim = [sp for sp in self._own_spans(d) if sp.get('is_primary')] or self._own_spans(d)
             for sp in prim:
                 ln = sp.get('line_start')
                 for ob in obs:
@@ -646,13 +666,13 @@ class Unit:
                             ob.detail = msg
                             ob.rendered = d.get('rendered', '')
                             hit = True
-            for sp in d.get('spans', []):
+            for sp in self._own_spans(d):
                 ln = sp.get('line_start')
                 for ob in obs:
                     if ob.kind == 'body' and ob.line0 <= ln <= ob.line1:
                         failed_fns.add(ob.fn)
             if not hit:
-                sp = d['spans'][0] if d.get('spans') else {}
+                sp = (self._own_spans(d) or d.get('spans') or [{}])[0]
                 self.undecided = 'verification error outside any registered obligation: %s (gen line %s)' % (
                     msg, sp.get('line_start'))
         if self.undecided:
